@@ -325,4 +325,11 @@ theorem C13s_not_other_order : ¬ C13sGuarantee false := by
   obtain ⟨s, r, hs, hrx⟩ := C13s_order_matters_inv
   rw [h1 s r hs] at hrx; cases hrx
 
+/-- THE PROOF OBLIGATION tied to the source: the extracted order is "receiver dropped first", hence the
+    guarantee holds for the library as written.  A change of `src/streams.rs` that shuts the socket
+    down before dropping the receiver (or leaves the drop to the end of the thread) regenerates
+    `Consts.wdDropsRxBeforeShutdown = false` and this theorem no longer checks. -/
+theorem C13s_source_order_holds : C13sGuarantee Consts.wdDropsRxBeforeShutdown :=
+  C13s_source_order (by decide)
+
 end Atto
